@@ -67,11 +67,36 @@ func (drp *dynamicResourcesPlugin) Allocate(
 	return nil
 }
 
-// UnAllocate cleans up Resource Claim allocation
+// UnAllocate removes the pod's reservation from its Resource Claims (written by Bind) when the
+// bind attempt is rolled back. The claim's allocation itself is left to the resource claim
+// controller, which deallocates claims that are no longer reserved.
 func (drp *dynamicResourcesPlugin) UnAllocate(
-	_ context.Context, _ *corev1.Pod, _ string, _ ksf.CycleState,
+	ctx context.Context, pod *corev1.Pod, _ string, _ ksf.CycleState,
 ) {
-	return
+	logger := log.FromContext(ctx)
+	for i := range pod.Spec.ResourceClaims {
+		claimName, err := resources.GetResourceClaimName(pod, &pod.Spec.ResourceClaims[i])
+		if err != nil {
+			continue
+		}
+		err = retry.RetryOnConflict(retry.DefaultRetry, func() error {
+			claim, err := drp.client.ResourceV1().ResourceClaims(pod.Namespace).Get(ctx, claimName, v1.GetOptions{})
+			if err != nil {
+				return err
+			}
+			updated := claim.DeepCopy()
+			resources.RemoveReservedFor(updated, pod)
+			if len(updated.Status.ReservedFor) == len(claim.Status.ReservedFor) {
+				return nil
+			}
+			_, err = drp.client.ResourceV1().ResourceClaims(pod.Namespace).UpdateStatus(ctx, updated, v1.UpdateOptions{})
+			return err
+		})
+		if err != nil {
+			logger.Error(err, "failed to remove pod reservation from resource claim",
+				"claim", claimName, "namespace", pod.Namespace, "pod", pod.Name)
+		}
+	}
 }
 
 // Bind binds Resource Claims to the task according to the allocation status from the bind request
